@@ -28,6 +28,31 @@ def get_function(relpath, func, cls=None):
     return fs[0]
 
 
+def module_env(relpath, glob):
+    """namespace for executing a slice: the module-level helper functions and simple constants of the source file (so that
+    a statement refactored into a helper still resolves), overlaid with the caller's stubs/proxies `glob` (which win).
+    Definitions that cannot be evaluated in this namespace (imports missing, decorators, ...) are skipped."""
+    tree = ast.parse(open(os.path.join(REPO, relpath)).read())
+    ns = dict(glob)
+    pending = [n for n in tree.body if (isinstance(n, ast.FunctionDef) and not n.decorator_list) or
+               (isinstance(n, ast.Assign) and all(isinstance(t, ast.Name) for t in n.targets))]
+    for _ in range(4):
+        rest = []
+        for n in pending:
+            names = [n.name] if isinstance(n, ast.FunctionDef) else [t.id for t in n.targets]
+            if any(k in glob for k in names):
+                continue                      # the caller's stub wins
+            mod = ast.Module(body=[n], type_ignores=[])
+            try:
+                exec(compile(mod, '<module helpers of %s>' % relpath, 'exec'), ns)
+            except Exception:
+                rest.append(n)
+        if not rest or len(rest) == len(pending):
+            break
+        pending = rest
+    return ns
+
+
 def _targets(st):
     if isinstance(st, ast.Assign):
         out = []
@@ -141,7 +166,7 @@ def slice_function(relpath, func, targets, params, cls=None, calls=(), raises=Fa
     code = compile(mod, '<slice of %s:%s>' % (relpath, func), 'exec')
 
     def factory(glob):
-        ns = dict(glob)
+        ns = module_env(relpath, glob)
         exec(code, ns)
         return ns[name]
     return factory, text
